@@ -44,7 +44,9 @@ ORD = ["a", "b", "div", "p", "span", "i", "li", "ul", "td", "x-y"]
 PRES = ["pre", "textarea"]
 CONT = {"script": 6, "style": 7, "template": 8, "rt": 9, "rp": 10}
 TEXT_ATOMS = ["a", "b", " ", "  ", "\n", "\t", "x y", "&", "<", ">", "\"", "'", ";", "#", "é", "☃", "≦̸", " ",
-              "&amp", "&lt;", "&#65;", "&nosuch;", "1", "=", "/", "\x0c", "\r", "--", "]]", "?"]
+              "&amp", "&lt;", "&#65;", "&nosuch;", "1", "=", "/", "\x0c", "\r", "--", "]]", "?",
+              # whitespace to str.isspace() but not in ASCII_SPACES: kept verbatim, alone or mixed with real whitespace
+              "\x0b", "\x0b ", "\x1c", "\x85", "\u2028", "\u2003"]
 NAME2CP = {k.rstrip(";"): v for k, v in html.entities.html5.items() if k.endswith(";")}
 ENTITY_DENOTES = {(k[:-1] if k.endswith(";") else k): v for k, v in html.entities.html5.items()}
 CP2NAME = {}
@@ -443,6 +445,10 @@ def esc_text(r, s, attr_quote=None, log=None):
             # numeric references below 256 take bs4's Windows-1252 detour; only use them where it is the identity
             if 0x80 <= ord(ch) <= 0x9f:
                 forms = [ch]
+            if attr_quote is not None and not must:
+                # attribute values are unescaped by the tokenizer itself (html.unescape): a numeric reference to a control character or
+                # noncharacter does not denote it there (the standard library drops or remaps it) - spell those literally
+                forms = [f2 for f2 in forms if html.unescape(f2) == ch] or [ch]
             f = r.choice(forms)
             if log is not None:
                 z = log.rng.choice([0, 0, 0, 1, 2, 7]) if log.rng is not None else 0
@@ -683,6 +689,11 @@ def writer_stream(ctx, drv):
         except Exception as e:
             ctx.violation(f"parsing a written document raised {type(e).__name__}: {e}", case={"text": text, "opts": opts}, stream="writer")
             continue
+        from . import heapsim as _hs
+        lmsg = _hs.oracle_c01(c03.SoupWorld(soup))
+        if lmsg:
+            ctx.violation("the parsed document is not one consistent tree (C01's oracle on this parse): " + lmsg, case={"text": text, "opts": opts},
+                          observed=lmsg, stream=stream)
         got = shape(soup)
         evs = record(text)
         if evs is None:
@@ -755,7 +766,9 @@ SOUP_TOKENS = ["<", ">", "</", "/>", "<a", "<b", "<br", "<br>", "<br/>", "</br>"
                "id", "k=v", "k='v'", "k=\"v\" k=w", "é", "&eacute;", "&notit;", "&nosuch;", "<img src=x>", "<hr/>", "<input", "</input>",
                "<rt>", "<style>", "</style>", "</", "<a/>", "<A HREF=X>", "\r\n", "\x00",
                # marked sections whose keyword is not upper case (the tokenizer reports them through the same callback)
-               "<![cdata[", "<![CData[x]]>", "<![cdata[a<b]]>", "<![Cdata[]]>", "<![CDATA [x]]>", "<![ CDATA[x]]>"]
+               "<![cdata[", "<![CData[x]]>", "<![cdata[a<b]]>", "<![Cdata[]]>", "<![CDATA [x]]>", "<![ CDATA[x]]>",
+               # nodes the parser leaves EMPTY inside whitespace-preserving elements, followed by text; odd whitespace
+               "<pre><!---->x", "<textarea><![CDATA[]]>y", "<pre><?>z<!---->w</pre>", "&#11;", "\x0b", "&#x1c; ", "<p>\x0b</p>"]
 
 
 def _cp1252_ok(n):
